@@ -4,7 +4,7 @@ From Qv Require Import Common.Bytes Gen.GenQrdata Model.Mime Model.QrData Model.
   Spec.SmtpDataSpec Spec.DeliverSpec Proofs.QrPlainProofs Proofs.QrNeedRecodeProofs Proofs.QrPlainSpecProofs
   Proofs.QrQpProofs Proofs.QrQpDecodeProofs Proofs.QrWrapLineProofs Proofs.QrWireProofs
   Proofs.QrFoldProofs Proofs.QrPhaseProofs Proofs.MimeTotalProofs Proofs.QrHeaderTotalProofs Proofs.QrScanProofs
-  Proofs.QrWrapHeaderProofs Proofs.QrPiecesProofs Proofs.QrSendQpTotalProofs.
+  Proofs.QrWrapHeaderProofs Proofs.QrPiecesProofs Proofs.QrSendQpTotalProofs Proofs.QrQpTailProofs Proofs.QrQpLegalProofs.
 Require Import Lia.
 
 (** wrap_header on a header window, as a composition step *)
@@ -103,6 +103,35 @@ Proof.
   destruct (firstn k l) as [|x r] eqn:Ef; [cbn in Hlen; lia|]. unfold open_line. rewrite <- Ef.
   rewrite ends_eol_last by (rewrite Ef; discriminate). rewrite firstn_length, Nat.min_l by lia. rewrite nth_firstn' by lia. now rewrite He.
 Qed.
+
+(** recode_qp as a step; a window that ends with a line end leaves no open line *)
+Lemma qp_piece_eol ext8 m b len D0 st : b + len <= length m -> byte_list m -> good ext8 D0 st [] ->
+  exists st' t, recode_qp m b len st = Ok st' /\ good ext8 D0 st' t /\ (ends_eol (sub m b len) = true -> t = []).
+Proof.
+  intros Hw Hb Hg.
+  destruct (recode_qp_ok m b len Hw st) as (vs & st' & E & Ho & Hz & Hnz).
+  set (w := sub m b len) in *.
+  assert (Hbw : byte_list w) by (apply Forall_sub; exact Hb).
+  destruct (qp_enc_roundtrip w vs Hbw) as (Hne & (d & Hd & _)). cbv zeta in Hne, Hd.
+  set (O := qp_enc vs 0 None w) in *.
+  pose proof (decode_legal _ _ Hd) as Hleg.
+  set (c := if at_bol 0 O then [] else CRLF) in *.
+  assert (Hc : c = [] \/ c = CRLF) by (unfold c; destruct (at_bol 0 O); auto).
+  destruct (wire_of_legal_open false O c Hc Hleg) as (t & Hwt & Hlt & Hct).
+  exists st', t. split; [exact E|]. split.
+  - apply (good_step ext8 D0 st st' O t); auto.
+    + apply wire_mono. exact Hwt.
+    + apply legal_line_mono. exact Hlt.
+    + intros Hl. destruct (Nat.eq_dec len 0) as [H0|Hn0].
+      * apply Hct. unfold c. assert (Hw0 : w = []) by (apply length_zero_iff_nil; unfold w; rewrite sub_length by lia; exact H0).
+        unfold O. rewrite Hw0. reflexivity.
+      * specialize (Hnz ltac:(lia)). rewrite Hl in Hnz. symmetry in Hnz. rewrite Ho in Hnz.
+        assert (Hwne : w <> []) by (intros Ee; apply (f_equal (@length N)) in Ee; unfold w in Ee; rewrite sub_length in Ee by lia; cbn in Ee; lia).
+        specialize (Hne Hwne). rewrite last_is_lf_app in Hnz by exact Hne.
+        apply (wire_last_lf false O t Hwt Hnz).
+  - intros He. apply (wire_last_lf false O t Hwt). apply (qp_enc_endlf (length w) w (le_n _) vs 0 None He).
+Qed.
+
 
 Section Entity.
 Variable m helo : bytes.
@@ -420,6 +449,49 @@ Proof.
       * intros Hnz. apply (qh_scan_mono m b len _ 0 (0, 0) (0, 0) hd o' ct' ce' E Hnz); intros Hn; cbn in Hn; contradiction.
 Qed.
 
+Lemma ends_eol_skipn (l : bytes) k : k < length l -> ends_eol (skipn k l) = ends_eol l.
+Proof.
+  intros H. rewrite <- (firstn_skipn k l) at 2. symmetry. apply ends_eol_app.
+  intros E. apply (f_equal (@length N)) in E. rewrite skipn_length in E. cbn in E. lia.
+Qed.
+
+(** the body of an entity that is no multipart, behind its header *)
+Lemma entity_body (h : nat) (st1 : St) (t : bytes) : byte_list m -> 1 <= h <= len ->
+  longrun 0 (skipn h w) = longrun 0 (skipn (hpos 0 w) w) ->
+  good ext8 D0 st1 t -> (h < len \/ ends_eol w = true -> t = []) ->
+  let rf := nr_fun w flags0 0 false in
+  exists st2 t2,
+    (if f8 rf || fline rf then liftS (recode_qp m (b + h) (len - h) st1)
+     else liftS (send_plain m (b + h) (len - h) st1)) = Ok (Done tt st2) /\
+    good ext8 D0 st2 t2 /\ (ends_eol w = true -> t2 = []).
+Proof.
+  intros Hb Hh Hlr Gt Ht rf.
+  destruct (Nat.eq_dec h len) as [Ehl|Nhl].
+  - (* no body *)
+    replace (len - h) with 0 by lia. unfold recode_qp, send_plain, liftS. cbn [Nat.eqb bind].
+    destruct (f8 rf || fline rf); (exists st1, t; split; [reflexivity|]; split; [exact Gt|auto]).
+  - assert (Et : t = []) by (apply Ht; lia). subst t.
+    assert (Esuf : sub m (b + h) (len - h) = skipn h w).
+    { rewrite sub_suffix by lia. f_equal. apply firstn_all2. rewrite w_len. lia. }
+    assert (Hee : ends_eol w = true -> ends_eol (skipn h w) = true).
+    { intros He. rewrite ends_eol_skipn by (rewrite w_len; lia). exact He. }
+    destruct (f8 rf || fline rf) eqn:Ebr; unfold liftS.
+    + destruct (qp_piece_eol ext8 m (b + h) (len - h) D0 st1) as (st2 & t2 & E2 & G2 & H2); [lia|exact Hb|exact Gt|].
+      rewrite E2. cbn [bind]. exists st2, t2. split; [reflexivity|]. split; [exact G2|].
+      intros He. apply H2. rewrite Esuf. apply Hee. exact He.
+    + apply Bool.orb_false_elim in Ebr as [E8 El].
+      destruct (nr_fun_facts w flags0 0 false) as [F8 _]. cbv zeta in F8. fold rf in F8. rewrite E8 in F8.
+      cbn [f8 flags0 orb] in F8. symmetry in F8.
+      destruct (nr_phase w F8 flags0 0 false eq_refl) as [_ Fl]. fold rf in Fl. rewrite El in Fl.
+      cbn [fline flags0 orb] in Fl. symmetry in Fl.
+      destruct (plain_piece ext8 m (b + h) (len - h) D0 st1) as (st2 & t2 & E2 & G2 & H2); [lia| |exact Gt|].
+      * rewrite Esuf. unfold must_recode. rewrite <- longrun_has_long, Hlr, Fl.
+        change (has_8bit (skipn h w)) with (existsb is8 (skipn h w)). rewrite (existsb_skipn is8 w h F8).
+        now rewrite Bool.andb_false_r.
+      * rewrite E2. cbn [bind]. exists st2, t2. split; [reflexivity|]. split; [exact G2|].
+        intros He. apply H2. rewrite Esuf. apply open_line_ends. apply Hee. exact He.
+Qed.
+
 (** an entity that is no multipart: header and body go out as legal lines, or nothing is sent *)
 Lemma entity_nomulti fu st : byte_list m -> good ext8 D0 st [] ->
   (forall ls ll bs bl, is_multipart m ls ll <> Ok (MpYes bs bl)) ->
@@ -438,26 +510,8 @@ Proof.
             (if f8 rf || fline rf then liftS (recode_qp m (b + h) (len - h) st1)
              else liftS (send_plain m (b + h) (len - h) st1)) = Ok res /\
             match res with Die _ st' => st' = st | Done _ st' => exists t, good ext8 D0 st' t end).
-  { destruct (Nat.eq_dec h len) as [Ehl|Nhl].
-    - (* no body *)
-      replace (len - h) with 0 by lia. unfold recode_qp, send_plain, liftS. cbn [Nat.eqb bind].
-      destruct (f8 rf || fline rf); (eexists; split; [reflexivity|]; exists t; exact Gt).
-    - assert (Et : t = []) by (apply Ht; lia). subst t.
-      destruct (f8 rf || fline rf) eqn:Ebr; unfold liftS.
-      + destruct (qp_piece ext8 m (b + h) (len - h) D0 st1) as (st2 & t2 & E2 & G2); [lia|exact Hb|exact Gt|].
-        rewrite E2. cbn [bind]. eexists. split; [reflexivity|]. exists t2. exact G2.
-      + apply Bool.orb_false_elim in Ebr as [E8 El].
-        destruct (nr_fun_facts w flags0 0 false) as [F8 _]. cbv zeta in F8. fold rf in F8. rewrite E8 in F8.
-        cbn [f8 flags0 orb] in F8. symmetry in F8.
-        destruct (nr_phase w F8 flags0 0 false eq_refl) as [_ Fl]. fold rf in Fl. rewrite El in Fl.
-        cbn [fline flags0 orb] in Fl. symmetry in Fl.
-        assert (Esuf : sub m (b + h) (len - h) = skipn h w).
-        { rewrite sub_suffix by lia. f_equal. apply firstn_all2. rewrite w_len. lia. }
-        destruct (plain_piece ext8 m (b + h) (len - h) D0 st1) as (st2 & t2 & E2 & G2 & _); [lia| |exact Gt|].
-        * rewrite Esuf. unfold must_recode. rewrite <- longrun_has_long, Hlr, Fl.
-          change (has_8bit (skipn h w)) with (existsb is8 (skipn h w)). rewrite (existsb_skipn is8 w h F8).
-          now rewrite Bool.andb_false_r.
-        * rewrite E2. cbn [bind]. eexists. split; [reflexivity|]. exists t2. exact G2. }
+  { destruct (entity_body h st1 t Hb Hh Hlr Gt Ht) as (st2 & t2 & E2 & G2 & _). fold rf in E2.
+    rewrite E2. eexists. split; [reflexivity|]. exists t2. exact G2. }
   destruct mp as [bs bl| | |why]; [exfalso; apply (Hnm ls ll bs bl Emp)|exact Body|exact Body|exact Body].
 Qed.
 
